@@ -186,18 +186,23 @@ where
     }
 }
 
+type Delivered = Pin<Box<dyn Future<Output = std::result::Result<Option<quinn::VarInt>, quinn::StoppedError>> + Send + Sync>>;
+
 pub struct QuicStream {
     send: quinn::SendStream,
     recv: quinn::RecvStream,
+    /// the wait, once the send side is finished, for the peer to have taken delivery of it
+    delivered: Option<Delivered>,
 }
 
 impl QuicStream {
     pub fn new(send: quinn::SendStream, recv: quinn::RecvStream) -> Self {
-        QuicStream { send, recv }
+        QuicStream { send, recv, delivered: None }
     }
 
     pub async fn close(mut self) -> Result<()> {
-        self.send.finish()?;
+        // the pump that ended may have finished the stream already (closing its sink does): that is harmless
+        let _ = self.send.finish();
         match self.send.stopped().await {
             Ok(_) => Ok(()),
             Err(e) => bail!(e),
@@ -220,7 +225,18 @@ impl AsyncWrite for QuicStream {
         AsyncWrite::poll_flush(Pin::new(&mut self.send), cx)
     }
 
-    fn poll_shutdown(mut self: Pin<&mut Self>, cx: &mut Context<'_>) -> Poll<Result<(), std::io::Error>> {
-        AsyncWrite::poll_shutdown(Pin::new(&mut self.send), cx)
+    /// Finishes the send side and waits until the peer has read it to its end (or stopped it): the flow, and with
+    /// it the connection, is dropped right after its sink is closed, which would discard whatever is still in flight
+    fn poll_shutdown(self: Pin<&mut Self>, cx: &mut Context<'_>) -> Poll<Result<(), std::io::Error>> {
+        let this = self.get_mut();
+        if this.delivered.is_none() {
+            let _ = this.send.finish();
+            this.delivered = Some(Box::pin(this.send.stopped()));
+        }
+        match this.delivered.as_mut().map(|f| f.as_mut().poll(cx)) {
+            Some(Poll::Pending) => Poll::Pending,
+            Some(Poll::Ready(Err(e))) => Poll::Ready(Err(std::io::Error::other(e))),
+            _ => Poll::Ready(Ok(())),
+        }
     }
 }
